@@ -56,6 +56,11 @@ type AccountingCheckpoint struct {
 	LastReportedInPackets  uint64 `json:"last_reported_in_packets,omitempty"`
 	LastReportedOutPackets uint64 `json:"last_reported_out_packets,omitempty"`
 
+	LastSentInOctets   uint64 `json:"last_sent_in_octets,omitempty"`
+	LastSentOutOctets  uint64 `json:"last_sent_out_octets,omitempty"`
+	LastSentInPackets  uint64 `json:"last_sent_in_packets,omitempty"`
+	LastSentOutPackets uint64 `json:"last_sent_out_packets,omitempty"`
+
 	CurrentBaselineInBytes    uint64 `json:"current_baseline_in_bytes,omitempty"`
 	CurrentBaselineOutBytes   uint64 `json:"current_baseline_out_bytes,omitempty"`
 	CurrentBaselineInPackets  uint64 `json:"current_baseline_in_packets,omitempty"`
@@ -93,6 +98,11 @@ func (c *Component) checkpointAcctSession(s *AccountingSession) {
 		LastReportedOutOctets:  s.lastReportedOutOctets,
 		LastReportedInPackets:  s.lastReportedInPackets,
 		LastReportedOutPackets: s.lastReportedOutPackets,
+
+		LastSentInOctets:   s.lastSentInOctets,
+		LastSentOutOctets:  s.lastSentOutOctets,
+		LastSentInPackets:  s.lastSentInPackets,
+		LastSentOutPackets: s.lastSentOutPackets,
 
 		CurrentBaselineInBytes:    s.currentBaselineInBytes,
 		CurrentBaselineOutBytes:   s.currentBaselineOutBytes,
@@ -176,6 +186,11 @@ func (c *Component) loadAcctSessions(ctx context.Context) (int, error) {
 			lastReportedInPackets:  cp.LastReportedInPackets,
 			lastReportedOutPackets: cp.LastReportedOutPackets,
 
+			lastSentInOctets:   cp.LastSentInOctets,
+			lastSentOutOctets:  cp.LastSentOutOctets,
+			lastSentInPackets:  cp.LastSentInPackets,
+			lastSentOutPackets: cp.LastSentOutPackets,
+
 			currentBaselineInBytes:    cp.CurrentBaselineInBytes,
 			currentBaselineOutBytes:   cp.CurrentBaselineOutBytes,
 			currentBaselineInPackets:  cp.CurrentBaselineInPackets,
@@ -251,18 +266,19 @@ func (s *AccountingSession) applyVPPCounters(stats *southbound.InterfaceStats) (
 	// zero for a fresh session), so comparing the live counter with it
 	// alone never sees a restart. A cumulative below what the billing
 	// server has already acknowledged means the live counter restarted.
+	floorInB, floorOutB, floorInP, floorOutP := s.reportFloor()
 	if !regressed {
-		regressed = (stats.RxBytes-s.currentBaselineInBytes)+s.priorDeltaInBytes < s.lastReportedInOctets ||
-			(stats.TxBytes-s.currentBaselineOutBytes)+s.priorDeltaOutBytes < s.lastReportedOutOctets ||
-			(stats.Rx-s.currentBaselineInPackets)+s.priorDeltaInPackets < s.lastReportedInPackets ||
-			(stats.Tx-s.currentBaselineOutPackets)+s.priorDeltaOutPackets < s.lastReportedOutPackets
+		regressed = (stats.RxBytes-s.currentBaselineInBytes)+s.priorDeltaInBytes < floorInB ||
+			(stats.TxBytes-s.currentBaselineOutBytes)+s.priorDeltaOutBytes < floorOutB ||
+			(stats.Rx-s.currentBaselineInPackets)+s.priorDeltaInPackets < floorInP ||
+			(stats.Tx-s.currentBaselineOutPackets)+s.priorDeltaOutPackets < floorOutP
 	}
 
 	if regressed {
-		s.priorDeltaInBytes = s.lastReportedInOctets
-		s.priorDeltaOutBytes = s.lastReportedOutOctets
-		s.priorDeltaInPackets = s.lastReportedInPackets
-		s.priorDeltaOutPackets = s.lastReportedOutPackets
+		s.priorDeltaInBytes = floorInB
+		s.priorDeltaOutBytes = floorOutB
+		s.priorDeltaInPackets = floorInP
+		s.priorDeltaOutPackets = floorOutP
 
 		// VPP restart zeros the per-interface counter; the live value the
 		// stats segment is reporting was accumulated from a fresh start.
@@ -280,6 +296,30 @@ func (s *AccountingSession) applyVPPCounters(stats *southbound.InterfaceStats) (
 	rxPackets = (stats.Rx - s.currentBaselineInPackets) + s.priorDeltaInPackets
 	txPackets = (stats.Tx - s.currentBaselineOutPackets) + s.priorDeltaOutPackets
 	return
+}
+
+// reportFloor is the value no further report may go below: the larger of
+// what the billing server acknowledged (LastReported) and what was ever
+// sent to it (LastSent) - a request whose response was lost may still have
+// been received.
+//
+// Caller must hold s.mu.
+func (s *AccountingSession) reportFloor() (rxBytes, txBytes, rxPackets, txPackets uint64) {
+	return max(s.lastReportedInOctets, s.lastSentInOctets),
+		max(s.lastReportedOutOctets, s.lastSentOutOctets),
+		max(s.lastReportedInPackets, s.lastSentInPackets),
+		max(s.lastReportedOutPackets, s.lastSentOutPackets)
+}
+
+// noteSent records the cumulative values about to be handed to the
+// provider.
+//
+// Caller must hold s.mu.
+func (s *AccountingSession) noteSent(rxBytes, txBytes, rxPackets, txPackets uint64) {
+	s.lastSentInOctets = rxBytes
+	s.lastSentOutOctets = txBytes
+	s.lastSentInPackets = rxPackets
+	s.lastSentOutPackets = txPackets
 }
 
 // advanceLastReported records that the billing server has acknowledged
